@@ -54,6 +54,16 @@ def scenarios(ctx, rend):
         ("last-value-caught-error", "println(1)\ntry { throw \"x\" } catch e { e }"), ("last-value-errors-new", "errors = import(\"errors\")\nprintln(1)\nerrors.New(\"boom\")"),
         ("last-value-go-error", "os = import(\"os\")\nos.Remove(\"/nonexistent-dir-zz/file\")"), ("last-value-pair", "os = import(\"os\")\nos.Open(\"/nonexistent-dir-zz/file\")"),
         ("last-value-false", "println(1)\nfalse"), ("last-value-nil", "nil"), ("last-value-func", "func f() { throw \"never called\" }\nf"),
+        # what the command decides BEFORE or AROUND the run is nothing: a name that is only a problem when reached is only reported when reached (unknown package in a branch
+        # not taken, in a function never called, under try), and what was printed before a failure stays printed
+        ("import-missing-untaken", "println(1)\nif false {\n import(\"nosuchpackage\")\n}\nprintln(2)"), ("import-missing-uncalled", "func f() {\n return import(\"nosuchpackage\")\n}\nprintln(1)"),
+        ("import-missing-caught", "try {\n import(\"nosuchpackage\")\n} catch e {\n println(\"caught\")\n}\nprintln(2)"), ("import-missing-after-output", "println(\"before\")\nimport(\"nosuchpackage\")\nprintln(\"after\")"),
+        ("import-missing-nilco", "x = import(\"nosuchpackage\") ?? 5\nprintln(x)"), ("import-computed", "n = \"str\" + \"ings\"\ns = import(n)\nprintln(s.ToUpper(\"ok\"))"),
+        ("undefined-untaken", "println(1)\nif false {\n zz()\n}\nprintln(2)"), ("undefined-type-untaken", "println(1)\nif false {\n make(nosuchtype)\n}\nprintln(2)"), ("load-missing-caught", "try {\n load(\"/nonexistent-zz.ank\")\n} catch e {\n println(\"caught\")\n}"),
+        # the command runs the script with the resources the library gives it: recursion as deep as vm.Execute manages in a process of its own
+        ("recursion-20k", "func d(n) {\n if n == 0 {\n  return 0\n }\n return d(n - 1) + 1\n}\nprintln(d(20000))"), ("recursion-60k", "func d(n) {\n if n == 0 {\n  return 0\n }\n return d(n - 1) + 1\n}\nprintln(d(60000))"),
+        ("recursion-150k-throw", "func d(n) {\n if n == 0 {\n  return 0\n }\n return d(n - 1) + 1\n}\nprintln(d(150000))\nthrow \"after\""), ("big-list", "a = []\nfor i = 0; i < 300000; i++ {\n a += i\n}\nprintln(len(a))"),
+        ("many-goroutines", "c = make(chan int64, 100)\nfor i = 0; i < 5000; i++ {\n go func(k) {\n  c <- k\n }(i)\n}\nn = 0\nfor i = 0; i < 5000; i++ {\n n += <-c\n}\nprintln(n)"),
         # -e with an empty source executes the empty program
         ("empty-source", ""), ("blank-source", " \n"),
         # what the script file holds is the source, byte for byte: a byte order mark is not dropped for the command only
